@@ -3,7 +3,7 @@
 # exit 0 (still proved) or exit 2 (undecided: an anchor the contracts name was edited) are acceptable; a VIOLATION is a false alarm.
 cd "$(dirname "$0")/.." || exit 2
 bad=0
-for x in n01:C11 n02:C11 n03:C11 n04:C11 n04:C12 n05:C12 n05:C11 n06:C13 n07:C13 n08:C14 n09:C18 n10:C19 n11:C10 n12:C10 n13:C15 n14:C15 n15:C15 n16:C15 n17:C15 n17:C14 n18:C15 n19:C15 n19:C14 n20:C18 n21:C10 n21:C09 n22:C10 n22:C09 n23:C11 n24:C11 n25:C04 n26:C04 n27:C04 n27:C05 n28:C04 n28:C05 n29:C05 n29:C06 n30:C05 n30:C06 n31:C05 n31:C06 n32:C05 n32:C06 n33:C05 n33:C06 n34:C05 n34:C06 n35:C05 n35:C06 n36:C05 n36:C06 n37:C20 n38:C20 n39:C20; do
+for x in n01:C11 n02:C11 n03:C11 n04:C11 n04:C12 n05:C12 n05:C11 n06:C13 n07:C13 n08:C14 n09:C18 n10:C19 n11:C10 n12:C10 n13:C15 n14:C15 n15:C15 n16:C15 n17:C15 n17:C14 n18:C15 n19:C15 n19:C14 n20:C18 n21:C10 n21:C09 n22:C10 n22:C09 n23:C11 n24:C11 n25:C04 n26:C04 n27:C04 n27:C05 n28:C04 n28:C05 n29:C05 n29:C06 n30:C05 n30:C06 n31:C05 n31:C06 n32:C05 n32:C06 n33:C05 n33:C06 n34:C05 n34:C06 n35:C05 n35:C06 n36:C05 n36:C06 n37:C20 n38:C20 n39:C20 n40:C20; do
   n=${x%%:*}; p=${x##*:}
   out=$(tools/seed_eval.sh "$p" "$(pwd)/neutral/$n.patch.diff" 2>&1)
   rc=$(echo "$out" | sed -n 's/^exit=//p')
